@@ -1,7 +1,7 @@
 (** C06 — Containment and winding queries agree with the path's winding number.
     Property theorems only; each is closed by [exact] of a lemma proved elsewhere. *)
 From Coq Require Import ZArith List Bool.
-From CV Require Import Geom.Winding Geom.WindingProofs.
+From CV Require Import Geom.Winding Geom.WindingProofs Geom.WindingSym.
 Import ListNotations.
 Open Scope Z_scope.
 
@@ -39,3 +39,9 @@ Print Assumptions C06_edge_translate.
 Theorem C06_edge_reverse : forall p a b, snd p <> snd a -> snd p <> snd b -> edge_w p b a = - edge_w p a b.
 Proof. exact edge_w_reverse. Qed.
 Print Assumptions C06_edge_reverse.
+
+(** the specification is translation invariant for WHOLE paths (any number of contours): moving the path and
+    the query point together leaves the winding number unchanged *)
+Theorem C06_wn_translate : forall dx dy_ P p, wn (map (map (tr dx dy_)) P) (tr dx dy_ p) = wn P p.
+Proof. exact wn_translate. Qed.
+Print Assumptions C06_wn_translate.
